@@ -149,7 +149,7 @@ def tlc(module, cfg=None, env=None, workers=None, timeout=900, simulate=None, de
         shutil.rmtree(meta, ignore_errors=True)
     r = TlcResult(p.returncode, p.stdout, time.time() - t0)
     if r.rc not in allow:
-        tail = "\n".join(r.out.splitlines()[-40:])
+        tail = "\n".join([l for l in r.out.splitlines() if not l.startswith('<<"GEN"')][-40:])
         kind = "timed out" if r.rc in (124, 137) else "failed"
         raise MachineryError("TLC %s on %s/%s (exit %d):\n%s" % (kind, module, cfg, r.rc, tail))
     return r
